@@ -328,12 +328,13 @@ func TestDeepNesting(t *testing.T) {
 		}
 	}
 	// blocks nested by indentation
-	for _, n := range []int{100, 1500, 2500, 20000} {
+	// (TAB indentation: the text grows with the square of the depth)
+	for _, n := range []int{100, 1500, 2500, 6000} {
 		var b strings.Builder
 		for i := 0; i < n; i++ {
-			b.WriteString(strings.Repeat("    ", i) + "如果真：\n")
+			b.WriteString(strings.Repeat("\t", i) + "如果真：\n")
 		}
-		b.WriteString(strings.Repeat("    ", n) + "输出1\n")
+		b.WriteString(strings.Repeat("\t", n) + "输出1\n")
 		src := b.String()
 		h.TrackCurrent(fmt.Sprintf("deep nesting: blocks x %d", n))
 		fails := checkFront(src)
